@@ -352,6 +352,20 @@ func checkC16(w *World, r *Report) {
 					ok = false
 				}
 			}
+			// the converse: the routine reports success only when the pools were stored - by then the vesting types are
+			// already rewritten, a silent return in between leaves the split half applied
+			early := ""
+			for _, ret := range Returns(mavp) {
+				rv := retVals(ret)
+				if len(rv) > 0 && isErrorType(rv[len(rv)-1].Type()) && nonNilAt(rv[len(rv)-1], ret.Block(), 0) {
+					continue
+				}
+				pb := p.Instr.Block()
+				if !(pb == ret.Block() || pb.Dominates(ret.Block())) {
+					early = w.Pos(ret.Pos())
+				}
+			}
+			r.Check(early == "", "C16.atomic", "the routine reports success only after the pools were stored", w.Pos(p.Instr.Pos()), "the persist dominates every return whose error may be nil", "the pool routine can report success without storing the split pools (return at "+early+") although the vesting types were already rewritten: the split is applied partially")
 			r.Check(ok, "C16.atomic", "persist after every split succeeded", w.Pos(p.Instr.Pos()), fmt.Sprintf("every failure edge of the %d split call site(s) returns the error; no split is reachable after the persist", len(splits)), "the pools can be persisted after only some of the splits")
 		}
 	}
